@@ -26,3 +26,31 @@ chk("C16", "translation_validation",
     "Both CodeFormat layouts are compiled by two real Compiler instances for every accepted corpus part and family program; one z3 IL==IL query per part over all registers, memory, jump, slot-cancel and every non-temporary local, plus equal attribute lists and equal acceptance.",
     "Trusted: RzIL semantics of vf/ilsem.py; unroll 17 with unwinding obligations.",
     "TV: SMT equivalence of the two emitted effects (z3 bit-vectors/arrays)", "DESIGN.md 3/C16")
+_TVNOTE = "Trusted: operand/plugin contract (DESIGN 1.1), my RzIL and C11/QEMU semantics, z3. Program dimension enumerated (exhaustive at the stated depth; seeded-random beyond), value dimension decided by the solver. UB states assumed away. Known findings are keyed by exact program text in known_findings.json."
+chk("C02", "translation_validation",
+    "Bounded program family (all 8x8 type pairs x 16 binary operators, unary operators, ?: arm/condition kinds at depth 1; all operator pairs at depth 2; seeded depth 3-4 trees) compiled by the real compiler; one z3 query per program proves the emitted IL equal to the C11 value AND result type (observed through a widening destination) for all operand values of all widths.",
+    _TVNOTE, "TV: SMT translation validation over a bounded program family", "DESIGN.md 3/C02")
+chk("C03", "translation_validation",
+    "All 8x8 (source,target) type pairs and boolean sources in every conversion context (explicit cast, initialiser, assignment, register targets of 8/32/64 bit, sub-routine argument and return through test sub-routines registered via the public API, bit-field macro arguments, stores of every width), chains of 2-3 conversions; z3 proves the C11-converted value for all source values.",
+    _TVNOTE, "TV: SMT translation validation over a bounded program family", "DESIGN.md 3/C03")
+chk("C05", "translation_validation",
+    "All 11 assignment operators x right-hand types x register/local targets, if/else chains, for loops with constant (0..8) and data-dependent trip counts, nested loops, statement pairs and seeded statement trees (nesting <= 4); every arm and trip count is covered by one query with symbolic initial state (unroll 9/17 with unwinding obligation).",
+    _TVNOTE, "TV: SMT translation validation over a bounded program family", "DESIGN.md 3/C05")
+chk("C06", "translation_validation",
+    "13 value-producing operations (postfix ++/--, sub-routine calls, statement-expressions) in 14 syntactic positions with witness statements before/after, pairs on independent state, at temporary-counter offsets 0 and 1000; the IL model inlines callee bodies in RzIL's flat namespace; obligation: every h_tmp/ret_val is written before read on every path.",
+    _TVNOTE, "TV: SMT translation validation over a bounded program family", "DESIGN.md 3/C06")
+chk("C07", "translation_validation",
+    "Every operand spelling of an independently written table of the Hexagon operand syntax (letters x classes x pairs x .new, explicit registers, aliases, immediates, loads/stores, jumps, pc) in read/write/read-after-write position; final states must be equal for all bank contents, and the operand slots resolved by the emitted READ block (incl. new flag) must be exactly the operands the behaviour names.",
+    _TVNOTE + " The register class/number/new-flag arguments are compared symbolically as operand identities, not against Rizin.", "TV: SMT translation validation over a bounded program family + operand-identity comparison", "DESIGN.md 3/C07")
+chk("C08", "translation_validation",
+    "87 sub-routines (13 bundled + generated ones registered through Compiler.add_sub_routine after other compilations) each proved equal to its C source in isolation; call sites with 1..4 calls per expression, nested calls, live results across calls, at temporary offsets 0/1/1000, with callee bodies inlined in the flat RzIL namespace and by-name parameter passing.",
+    _TVNOTE, "TV: SMT translation validation over a bounded program family", "DESIGN.md 3/C08")
+chk("C09", "translation_validation",
+    "Literal spellings x suffixes x boundary values, every foldable operator on 21x21 boundary literal pairs, constant ?: with dead arms that live code still uses, sizeof forms: the folded code is compared with the C11 run-time evaluation (value and type) for all register contents; declared-before-use constraints catch declarations removed with a dead operand.",
+    _TVNOTE + " Literals wider than 64 bit are outside the family.", "TV: SMT translation validation over a bounded program family", "DESIGN.md 3/C09")
+chk("C15", "translation_validation",
+    "64 statements and 10 expressions using constructs of the full C grammar at statement/expression positions of carrier programs. If the compiler returns code: equivalence with the C reference for all states when the reference gives the construct a meaning (break/continue/comma/while/do), otherwise 'the compiler must raise'; plus every declared effect reachable from the returned effect.",
+    _TVNOTE, "TV: SMT translation validation + reject-oracle over a construct family", "DESIGN.md 3/C15")
+chk("C17", "translation_validation",
+    "All 256 ordered operator pairs with differently typed operands, unary/binary, & vs &&, cast vs parenthesis, ?: and assignment associativity, else binding, nesting, look-alike tokens: the parse the compiler used must give the C value for all operand values (independent precedence-climbing parser as oracle). Determinism: the same texts parsed in 8/32 fresh processes with different PYTHONHASHSEED and fresh/reused parser objects (concrete runs).",
+    _TVNOTE + " Lark's Earley parser cannot be run on symbolic text: structure is checked through the values it determines; the hash-seed dimension is enumerated.", "TV: SMT translation validation of parse-determined semantics + enumerated hash seeds", "DESIGN.md 3/C17")
